@@ -3,7 +3,8 @@
 Model: spec/Narrowing.tla (+ spec/Boolability.tla), extending Assign.tla / ValueAlgebra.tla / Values.tla.
 TLC proves, for every type term V of the bounded space, every condition c (isinstance, issubclass,
 TypeIs / TypeGuard functions, is / is not, == / !=, in / not in, truthiness, len comparisons, the class /
-identity constraints behind assert_is_instance / assert_is, and not / and / or over those) and both
+identity constraints behind assert_is_instance / assert_is, not / and / or over those, and the value /
+singleton / class / or patterns of `match`) and both
 polarities, that the modelled narrowing keeps every object of V on which the condition evaluates to the
 polarity (N1), adds nothing outside V and the tested type (N2), and that an always-true / always-false
 truthiness verdict is right for every object (N3) -- up to the named deviation classes.
@@ -11,7 +12,7 @@ truthiness verdict is right for every object (N3) -- up to the named deviation c
 Binding: every TLC-generated case is replayed (i) through pyanalyze.stacked_scopes.constrain_value with
 the real Constraint / predicate objects built from the model's abstract-constraint term (and their
 .invert()), and (ii) as a generated `def f(x: T): if <cond>: x / else: x` through the real visitor
-(annotate=True, inferred value of the `x` nodes).  Every observation carries what real CPython evaluated
+(or `match x: case <pattern>: x / case _: x`; annotate=True, inferred value of the `x` nodes).  Every observation carries what real CPython evaluated
 the condition to on every object of the universe; TLC (spec/trace/NarrowingTrace.tla) first checks its
 own model of the conditions against that, then judges N1 / N2 / N3 on the REAL results and compares them
 with the model (drift).
@@ -29,7 +30,7 @@ LEVEL = "model_checking"
 ACTIONS = [
     "ChooseV", "ChooseVCompound", "ChooseIsinstance", "ChooseIssubclass", "ChooseTypeIs", "ChooseTypeGuard", "ChooseIs",
     "ChooseEq", "ChooseIn", "ChooseTruthy", "ChooseLen", "ChooseLegacyIsinstance", "ChooseLegacyIsvalue", "ChooseNot",
-    "ChooseAnd", "ChooseOr", "ChooseDeep",
+    "ChooseAnd", "ChooseOr", "ChooseDeep", "ChooseMatch", "ChooseMatchOr",
 ]
 BATCH = 6000
 
@@ -148,7 +149,7 @@ def run(check: core.Check) -> None:
         "TypeIs / TypeGuard functions are hand-written run-time tests of exactly their type (validated against Member)",
         "visitor route: no model prediction (oracle only) for and/or conditions and for conditions containing a call the "
         "visitor rejects; V with *tuple[...] segments and the class/identity constraints (assert_is_instance) are api-route only",
-        "not covered: match patterns, comparison predicates other than len (x < 3), len inside and/or chains (MinLen/MaxLen "
+        "not covered: sequence / mapping / class-with-subpattern / guarded match patterns, comparison predicates other than len (x < 3), len inside and/or chains (MinLen/MaxLen "
         "annotations), TypedDict / Callable / TypeVar values, attribute or subscript targets (self.x, a[0])",
     ]
     cfg = "Narrowing.quick.cfg" if quick else "Narrowing.thorough.cfg"
@@ -159,8 +160,10 @@ def run(check: core.Check) -> None:
     cov = core.require_ok(core.run_tlc("Narrowing", "Narrowing.cov.cfg", workers=2, coverage=True, timeout=900), "coverage")
     core.require_coverage(cov, ACTIONS, "Narrowing")
     check.add_tlc("coverage:Narrowing.cov.cfg", cov)
-    # sensitivity self-tests
-    for c, inv in (("Narrowing.sens.cfg", "InvN1"), ("Narrowing.strict1.cfg", "InvN1Strict"), ("Narrowing.strict3.cfg", "InvN3Strict")):
+    # sensitivity self-tests (InvN3Strict holds once the abstract-class repair is declared applied in the cfgs)
+    abc_fixed = "abc_boolable" in (core.SPEC / "mc" / "Narrowing.strict3.cfg").read_text().split("NFixed")[1].split("\n")[0]
+    for c, inv in (("Narrowing.sens.cfg", "InvN1"), ("Narrowing.strict1.cfg", "InvN1Strict"),
+                   ("Narrowing.strict3.cfg", None if abc_fixed else "InvN3Strict")):
         r = core.run_tlc("Narrowing", c, workers=2, timeout=900)
         if r.violated != inv:
             raise core.MachineryError(f"sensitivity self-test {c}: expected {inv} to be violated, got {r.violated} / {r.error}")
@@ -186,7 +189,7 @@ def run(check: core.Check) -> None:
     )
     kinds = {c["c"]["kind"] for c in cases}
     missing = {"isinstance", "issubclass", "typeis", "typeguard", "is", "eq", "in", "truthy", "boolcall", "len", "c_isinstance",
-               "c_isvalue", "not", "and", "or"} - kinds
+               "c_isvalue", "not", "and", "or", "m_value", "m_singleton", "m_class", "m_or"} - kinds
     if missing:
         raise core.MachineryError(f"condition kinds never generated: {sorted(missing)}")
     counts = judge(check, cases, vs, objs_t, "tlc-exhaustive")
